@@ -699,6 +699,8 @@ class Interp:
         self.stack: list[str] = []
         self.self_fields: dict | None = None  # when evaluating a constructor
         self.last_env = None
+        self.path: list = []
+        self.cond_effects: list = []
 
     # ---------------------------------------------------------------- entry points
     def eval_method(self, cls: ClassInfo, name: str, args, kwargs=None, self_term=("sym", "self")):
@@ -872,8 +874,16 @@ class Interp:
                         return out
                     continue
                 e1, e2 = env.copy(), env.copy()
-                o1 = self.exec_block(st.body, e1, ctx)
-                o2 = self.exec_block(st.orelse, e2, ctx)
+                self.path.append(test)
+                try:
+                    o1 = self.exec_block(st.body, e1, ctx)
+                finally:
+                    self.path.pop()
+                self.path.append(mk_not(test))
+                try:
+                    o2 = self.exec_block(st.orelse, e2, ctx)
+                finally:
+                    self.path.pop()
                 rest = stmts[i + 1:]
                 if o1[0] == "fall" and o2[0] == "fall":
                     self.merge_env(env, test, e1, e2)
@@ -909,10 +919,10 @@ class Interp:
         if o1[0] == "ret" and o2[0] == "ret":
             return ("ret", mk_ite(test, o1[1], o2[1]))
         if o1[0] == "raise" and o2[0] != "raise":
-            self.guards.append(("raise-if", test, o1[1], getattr(st, "lineno", 0)))
+            self.guards.append(("raise-if", test, o1[1], getattr(st, "lineno", 0), tuple(self.path)))
             return o2
         if o2[0] == "raise" and o1[0] != "raise":
-            self.guards.append(("raise-if", mk_not(test), o2[1], getattr(st, "lineno", 0)))
+            self.guards.append(("raise-if", mk_not(test), o2[1], getattr(st, "lineno", 0), tuple(self.path)))
             return o1
         if o1[0] == "raise" and o2[0] == "raise":
             return o1
@@ -994,6 +1004,7 @@ class Interp:
                 return
         v = self.ev_any(e, env, ctx)
         self.effects.append(v)
+        self.cond_effects.append((tuple(self.path), v if isinstance(v, tuple) else self.reify(v)))
 
     def assign(self, target, v, env, ctx):
         if isinstance(target, ast.Name):
